@@ -1739,6 +1739,7 @@ pub fn stats(sc: &Scenario, reports: &[ChildReport]) -> ScenarioStats {
             for f in &w.files {
                 if f.bom { dims.insert("dim:file_with_byte_order_mark"); }
                 if f.md_nest > 0 { dims.insert("dim:markdown_tags_inside_list_item"); }
+                if crate::world::md_ref_applies(f) { dims.insert("dim:markdown_link_reference_comments"); }
                 if f.no_final_newline { dims.insert("dim:file_without_final_newline"); }
                 if f.spelling != 0 { dims.insert("dim:alternative_tag_spellings"); }
                 if f.block_comments != 0 { dims.insert("dim:tags_in_block_comments"); }
